@@ -214,7 +214,7 @@ def run_impl(driver, root, reporter, mode, timeout=60, env_extra=None, scn_extra
             env.update(env_extra)
         r = Run()
         try:
-            p = subprocess.run([driver, "case.scn"], cwd=d, env=env, stdout=subprocess.PIPE,
+            p = vlib.run_group([driver, "case.scn"], cwd=d, env=env, stdout=subprocess.PIPE,
                                stderr=subprocess.PIPE, timeout=timeout)
             r.exit, r.timeout = p.returncode, False
             r.stdout = p.stdout.decode("latin-1")
@@ -390,6 +390,11 @@ def parse_cdash(files):
 # ------------------------------------------------------------------------------------------
 def log_tdone(run):
     return [(a[0], tuple(map(int, a[1:5]))) for pid, k, a in run.log if k == "tdone"]
+
+
+def log_tmsg(run):
+    """(test name, the message finish_test was given or None)"""
+    return [(a[0], None if a[1] == "-" else bytes.fromhex(a[1]).decode("latin-1")) for pid, k, a in run.log if k == "tmsg" and len(a) >= 2]
 
 
 def log_sdone(run):
